@@ -32,7 +32,8 @@ POOL = {
     "tm": ["3 hours", "90 minutes", "2 days + 1 s", "1|2 year"],
     "dt": ["#2000-01-01#", "#1999-12-31 23:59:59#", "#2020-02-29#"],
     "su": ["electron", "ammonia", "2 neutron", "egg"],
-    "cv": ["2 km -> m", "1 hour -> s", "3 ft -> inch", "10 -> hex"],
+    "cv": ["2 km -> m", "1 hour -> s", "3 ft -> inch", "65 mph -> km/hour"],
+    "cf": ["255 -> hex", "1|3 -> digits 10", "0.75 -> frac", "1e-9 -> eng", "12 -> base 7", "300 m -> sci"],
     "ul": ["1000 s -> minute, s", "2.5 hour -> hour, minute", "100 inch -> ft, inch"],
     "df": ["foot", "kilogram", "energy", "parsec"],
     "uf": ["units for bit", "units for kat", "units for A"],
